@@ -260,3 +260,8 @@ Fixpoint parse (fuel : nat) (vars0 : smap) (contents : str) {struct fuel} : outc
   end.
 
 End Orders.
+
+(* an entry, a comment or a blank line (C05: word-list include files) *)
+Definition simple_line (ordp : list pname) (l : str) : Prop :=
+  exists pl, parse_line ordp (trim_left is_blank l) = Ok pl /\
+             (pl_type pl = LRegular \/ pl_type pl = LEmpty \/ pl_type pl = LComment).
